@@ -104,6 +104,25 @@ class FScandirIterator(object):
         return False
 
 
+ENV_LOOKUPS = set()  # names of the environment variables the code under test has consulted (any run)
+
+
+class RecEnviron(dict):
+    """os.environ of the modelled process; remembers which names were looked up"""
+
+    def get(self, key, default=None):
+        ENV_LOOKUPS.add(key)
+        return dict.get(self, key, default)
+
+    def __getitem__(self, key):
+        ENV_LOOKUPS.add(key)
+        return dict.__getitem__(self, key)
+
+    def __contains__(self, key):
+        ENV_LOOKUPS.add(key)
+        return dict.__contains__(self, key)
+
+
 class FFile(object):
     """file object returned by the facade's builtin ``open``"""
 
@@ -447,7 +466,7 @@ class Facades(object):
 
     def set_world(self, model, environ, uid=1000, isatty0=False):
         self.holder.m = model
-        self.holder.environ = environ
+        self.holder.environ = RecEnviron(environ)
         self.holder.uid = uid
         self.holder.isatty0 = isatty0
 
